@@ -179,6 +179,39 @@ def case_mem_pole(ctx, N, strict=False):
     ctx.reach("D-M1.pole")
 
 
+def case_direction_increment(ctx, dgrid, nd):
+    """midpoint-rule bin widths used by the MEM2 solvers: positive, sum to 2 pi, equal to half the distance between
+    the two neighbouring directions (wrapped) - for grids that do not start at zero and for non-uniform grids; the
+    Newton variant computes the same increments"""
+    import ocean_science_utilities.wavespectra.estimators.utils as U
+    M2, M1 = _m2(ctx)
+    ctx.patch(U, "np", SymNP() if ctx.mode == "sym" else ConcNP())
+    d = C.dir_grid(ctx, dgrid, nd)
+    rad = d * np.pi / 180
+    inc = U.get_direction_increment(rad)
+    captured = {}
+
+    def capture(out, a1, b1, a2, b2, guess, direction_increment, twiddle_factors, config, approximate):
+        captured["inc"] = direction_increment
+        captured["tw"] = twiddle_factors
+    ctx.patch(M2, "_mem2_newton_point", capture)
+    one = ctx.const(np.array([[0.1]]))
+    M2.mem2_newton(rad, one, one, one, one, None, None, False)
+    ctx.reach("D-INC")
+    tot = tot2 = 0
+    pi_ = ctx.const(np.pi)
+    for j in range(nd):
+        nxt = rad[(j + 1) % nd] + (2 * np.pi if j == nd - 1 else 0)
+        prv = rad[(j - 1) % nd] - (2 * np.pi if j == 0 else 0)
+        ref = (nxt - prv) / 2
+        ctx.check(ctx.close(inc[j], ref), "D-INC", info=dict(j=j, grid=dgrid, what="midpoint width (utils)"))
+        ctx.check(ctx.close(captured["inc"][j], ref), "D-INC.newton", info=dict(j=j, grid=dgrid))
+        ctx.check(ctx.lt(0, inc[j]), "D-INC.positive")
+        tot, tot2 = tot + inc[j], tot2 + captured["inc"][j]
+    ctx.check(ctx.close(tot, 2 * pi_), "D-INC.sum", info="increments sum to 2 pi")
+    ctx.check(ctx.close(tot2, 2 * pi_), "D-INC.sum")
+
+
 EST = z3.Function("EstD", z3.RealSort(), z3.RealSort(), z3.RealSort(), z3.RealSort(), z3.IntSort(), z3.RealSort())
 
 
@@ -296,4 +329,6 @@ def cases(tier):
         for method in ("mem", "mem2"):
             add("case_glue", f"glue_{method}_{'x'.join(map(str, shape))}", shape=list(shape), method=method)
     add("case_energy_roundtrip", "energy_roundtrip_nf2", nf=2)
+    for dg, nd in (("uniform0", 4), ("uniform_off", 6), ("nonuniform", 5), ("past360", 4), ("uniform_neg", 6)):
+        add("case_direction_increment", f"dir_increment_{dg}_{nd}", dgrid=dg, nd=nd)
     return cs
